@@ -701,9 +701,15 @@ func HashMapOfValueCopy(vm *Thread, target *HashMapOfValue, source *HashMapOfVal
 		if i == -1 {
 			panic("no room in target hashmap during copy")
 		}
+		previous := target.Table[i]
 		target.Table[i] = entry
-		target.OccupiedSlots++
-		target.Elements++
+		if previous.Key().IsUndefined() {
+			// a new key: count it, and count the slot only when it was never used
+			if previous.Value().IsUndefined() {
+				target.OccupiedSlots++
+			}
+			target.Elements++
+		}
 	}
 
 	return value.Undefined
@@ -724,9 +730,15 @@ func HashMapOfValueCopyInterface(vm *Thread, target *HashMapOfValue, source Hash
 		if i == -1 {
 			panic("no room in target hashmap during copy")
 		}
+		previous := target.Table[i]
 		target.Table[i] = entry
-		target.OccupiedSlots++
-		target.Elements++
+		if previous.Key().IsUndefined() {
+			// a new key: count it, and count the slot only when it was never used
+			if previous.Value().IsUndefined() {
+				target.OccupiedSlots++
+			}
+			target.Elements++
+		}
 	}
 
 	return value.Undefined
